@@ -12,6 +12,7 @@ import collections
 import collections.abc
 import datetime as dtm
 import decimal
+import enum
 import fractions
 import ipaddress
 import math
@@ -27,8 +28,14 @@ from typing import Any, Optional
 # tokens: name -> list of representatives (python expressions evaluated once)
 # every documented rule must be constant on a token's representatives (checked by check_classes)
 # ---------------------------------------------------------------------------------------------
+class E(enum.Enum):
+    """members of Literal[...] types: 'Enum instances will be loaded via its loaders' (by exact value)"""
+    A = "ea"
+    B = 5
+
+
 _NS = {"Decimal": Decimal, "Fraction": Fraction, "dtm": dtm, "uuid": uuid, "pathlib": pathlib,
-       "ipaddress": ipaddress, "re": re, "math": math}
+       "ipaddress": ipaddress, "re": re, "math": math, "E": E}
 
 TOKENS: dict[str, list[str]] = {
     "none": ["None"],
@@ -53,6 +60,7 @@ TOKENS: dict[str, list[str]] = {
     "dt": ["dtm.datetime(2020, 1, 2, 10, 20, 30)"], "da": ["dtm.date(2020, 1, 2)", "dtm.date(1999, 12, 31)"], "ti": ["dtm.time(10, 20, 30)"],
     "uu": ["uuid.UUID('12345678-1234-5678-1234-567812345678')"], "pa": ["pathlib.Path('a/b')"],
     "ip": ["ipaddress.IPv4Address('127.0.0.1')", "ipaddress.IPv4Address('10.0.0.1')"], "pat": ["re.compile('a+')"],
+    "s_ea": ["'ea'"], "i5": ["5"], "e_a": ["E.A"], "e_b": ["E.B"],
     "obj": ["object()"],
 }
 
@@ -209,11 +217,12 @@ def eq_classes() -> dict[str, int]:
     for t in TOKENS:
         v = rep(t)
         placed = False
-        if hashable(v) and v == v:  # noqa: PLR0124
+        if v == v:  # noqa: PLR0124
             for i, cl in enumerate(classes):
                 w = rep(cl[0])
                 try:
-                    same = hashable(w) and v == w and hash(v) == hash(w)
+                    # == (and equal hashes where both are hashable: bytearray(b'abc') == b'abc' is an unhashable look-alike)
+                    same = bool(v == w) and (not (hashable(v) and hashable(w)) or hash(v) == hash(w))
                 except Exception:  # noqa: BLE001
                     same = False
                 if same:
@@ -276,6 +285,9 @@ def axioms_tla() -> str:
     lines.append("\\* value a constructor builds from a token, as a token (defined only where it lies in the universe)")
     lines.append("CtorTok == [c \\in Ctors |-> CASE " + " [] ".join(
         f'c = "{c}" -> (' + (" @@ ".join(f'"{t}" :> "{u}"' for t, u in row.items()) or "<<>>") + ")" for c, row in ct.items()) + "]")
+    ev = {t: token_of(rep(t).value, 0) for t in toks if isinstance(rep(t), enum.Enum)}
+    lines.append("\\* Enum members among the tokens: the token of member.value")
+    lines.append("EnumValueTok == (" + " @@ ".join(f'"{t}" :> "{u}"' for t, u in ev.items()) + ")")
     lines.append("KindCtor == [k \\in DumpKinds \\cup {\"Any\"} |-> CASE " + " [] ".join(f'k = "{k}" -> "{c}"' for k, c in KIND_CTOR.items()) + "]")
     lines.append("ValuePyType == [k \\in DumpKinds |-> CASE " + " [] ".join(f'k = "{k}" -> "{c}"' for k, c in VALUE_PYTYPE.items()) + "]")
     lines.append("=======================================================================================")
